@@ -902,20 +902,8 @@ class StructureSimilarity(object):
         if not os.path.isfile(izone):
             raise FileNotFoundError('i-zone file not found', izone)
 
-        with open(izone, 'r') as f:
-            data = f.readlines()
-
         # get the data out of it
-        resData = {}
-        for line in data:
-
-            res = line.split()[1].split('-')[0]
-            chainID, resSeq = res[0], int(res[1:])
-
-            if chainID not in resData.keys():
-                resData[chainID] = []
-
-            resData[chainID].append(resSeq)
+        resData = self.read_zone(izone)
 
         # get the rowID
         index_contact = []
